@@ -192,12 +192,43 @@ def obligations(r, tier, seed):
                 with common.patched(type(e), calc_error=lambda self: k.np.array(oe), calc_jacobians=lambda self: [k.np.array(J) for J in oJ]):
                     twice(k, e.calc_chi2, "calc_chi2 (error cut)")
                     twice(k, lambda: flat_result(e.calc_chi2_gradient_hessian()), "calc_chi2_gradient_hessian (error and Jacobians cut)")
+            if TA != "SE3":
+                # a query through the numerical-differentiation fallback (it evaluates the error at perturbed poses) in between
+                J_before = snapshot(k, e.calc_jacobians())
+                k.r.BaseEdge.calc_jacobians(e)
+                k.same(e.calc_jacobians(), J_before, "calc_jacobians: identical before and after a numerical-Jacobian query of the same edge")
             k.check(e.is_valid(), "is_valid")
             if TA in ("SE2", "SE3"):
                 t1, t2 = e.to_g2o(), e.to_g2o()
                 k.check(t1 == t2, "to_g2o: a second call returns the identical text")
             fr.unchanged("after all edge queries")
         obs.append(Ob("C15/edge-queries-are-pure/%s/%s-%s" % (kind, TA, TB), edge_queries, funcs=FUNCS, light=True, max_paths=64, eager=(TA == "SE3")))
+
+    # ---- SE(3): the same interleaving at CONCRETE states (symbolic poses would multiply the sign decisions of 12 perturbed poses):
+    #      generic, negative scalar part, and the half-turn tie of the error quaternion (w exactly 0) where a 1e-6 perturbation tips
+    #      the tie-break -- a query that evaluates the error at perturbed poses must leave no trace in a later query
+    def se3_numeric_in_between(k):
+        r_ = k.r
+        ident = [0.0, 0.0, 0.0, 0.0, 0.0, 0.0, 1.0]
+        states = [("generic", [0.5, -1.25, 3.0, 0.5, 0.5, 0.5, 0.5], [2.0, 0.75, -1.0, 0.5, -0.5, 0.5, 0.5], [0.25, 4.0, 1.5, 0.5, 0.5, -0.5, 0.5]),
+                  ("negative-w", [0.5, -1.25, 3.0, 0.5, 0.5, 0.5, -0.5], [2.0, 0.75, -1.0, -0.5, -0.5, 0.5, -0.5], ident),
+                  ("half-turn-tie", ident, [1.0, 2.0, 3.0, 0.6, 0.0, -0.8, 0.0], ident),
+                  ("half-turn-tie-2", ident, [1.0, 2.0, 3.0, 0.0, 0.6, 0.0, 0.8], [0.0, 0.0, 0.0, 0.0, -0.8, 0.0, 0.6])]
+        for name, ra, rb, rz in states:
+            vs = [r_.Vertex(3, k.pose_from_raw("SE3", ra)), r_.Vertex(8, k.pose_from_raw("SE3", rb))]
+            e = r_.EdgeOdometry([3, 8], k.np.eye(6), k.pose_from_raw("SE3", rz), vs)
+            fr = Frame(k, vs, [e])
+            err_before = snapshot(k, e.calc_error())
+            J_before = snapshot(k, e.calc_jacobians())
+            r_.BaseEdge.calc_jacobians(e)            # numerical fallback: evaluates the error at perturbed poses
+            k.same(e.calc_jacobians(), J_before, "%s: calc_jacobians identical before and after a numerical-Jacobian query" % name)
+            k.same(e.calc_error(), err_before, "%s: calc_error identical before and after" % name)
+            r_.BaseEdge.calc_jacobians(e)
+            e.calc_chi2_gradient_hessian()
+            k.same(e.calc_jacobians(), J_before, "%s: calc_jacobians identical after a second numerical query and a contribution query" % name)
+            fr.unchanged("%s: after the interleaved queries" % name)
+    obs.append(Ob("C15/edge-queries-are-pure/odometry/SE3-numerical-query-in-between", se3_numeric_in_between, funcs=FUNCS, light=True,
+                  scope="shape-bounded", bound="4 concrete SE(3) states incl. the half-turn tie of the error quaternion"))
 
     def eq_twice(k, a, b, tol):
         r1 = a.equals(b, tol)
